@@ -213,6 +213,8 @@ class FunctionAnalysis:
         else:
             idx = self.ty(e.slice, env, h)
         if not base.untrusted:
+            if not is_slice and idx.untrusted and not idx.hashable:
+                self.site(e, "TypeError", "internal container subscripted with an untrusted value of unknown type (unhashable key / non-integer index)", h)
             if base.kinds <= {"list", "tuple"} and base is not TRUSTED and not is_slice and getattr(base, "minlen", 0) >= 0:
                 # internal list indexed by a variable: IndexError unless bounded — only for lists holding untrusted content
                 pass
@@ -334,6 +336,11 @@ class FunctionAnalysis:
                 if any(v.untrusted for v in argv):
                     self.site(e, "TypeError", f"{f.value.id}.dumps of an untrusted value", h)
                 return tval("str")
+            if recv is not None and not recv.untrusted and name in ("get", "setdefault", "pop", "__getitem__", "__contains__") and argv \
+                    and argv[0].untrusted and not argv[0].hashable:
+                # hash-based lookup in an internal mapping with a decoder-controlled key: a list / map key is unhashable
+                self.site(e, "TypeError", f".{name}() of an internal mapping with an untrusted key of unknown type (may be unhashable)", h)
+                return TRUSTED
             if recv is not None and recv.untrusted:
                 tbl = [self.METHODS.get(k, {}).get(name) for k in recv.kinds]
                 if recv.kinds and all(t is not None for t in tbl):
